@@ -373,6 +373,10 @@ def run_C07(ctx):
     rng = ctx.rng
     prof = {"p_fail": 0.25, "fail_kinds": ["transfer"], "kinds": ["transfer"] * 6 + ["misc"], "nops": (1, 4)}
     progs = corpus_progs(ctx) + [G.gen_worklist_program(rng, prof) for _ in range(ctx.n(260))]
+    # the argument faults of the statement, each often enough on each device: lists of incompatible lengths (also
+    # broadcastable ones) and negative volumes are refused, not cycled / dropped
+    progs += [G.gen_worklist_program(rng, dict(prof, p_fail=1.0, nops=(1, 2), transfer_faults=["length", "length", "negative"]))
+              for _ in range(ctx.n(40))]
     stateful(ctx, res, "transfer", progs, ["transfer"])
     return res
 
@@ -1604,7 +1608,7 @@ def run_C15(ctx):
     prev = None
     for _ in range(ctx.n(250)):
         R, C = rng.randint(1, 16), rng.randint(1, 24)
-        seed = rng.randint(0, 200)
+        seed = rng.choice([0, 0, 0, 1, 2**31, rng.randint(0, 200), rng.randint(0, 200), rng.randint(0, 2**32 - 1)])   # 0 is a seed like any other
         mode = rng.choice(["full", "row", "column"])
         if prev is not None and rng.random() < 0.3:
             # the same seed and mode as the previous randomizer of this process, on another geometry with the same
@@ -2488,21 +2492,34 @@ def plan_exec(plan, stock_conc, dev, max_volume, with_dest, rng):
     return None
 
 
-def _tight_budget_params(rng, tries=30000):
+def _tight_budget_params(rng, tries=30000, want="budget"):
     """Parameter sets in which the per-well budget of a source column decides by a hair: an independent float re-run of
     the documented planning rule (round for stock columns, ceil for serial ones, leftmost feasible source) is used as a
     FILTER only — it keeps candidates where some 'still available - needed' margin lies within a few microlitres of 0."""
     import math
     for _ in range(tries):
-        R = rng.choice([1, 2, 3, 4])
+        R = rng.choice([1, 2, 3, 4]) if want == "budget" else rng.choice([3, 4, 8])
         C = rng.choice([3, 4, 5, 6])
         stock = float(rng.choice([20, 50, 100]))
         xmax = stock / rng.choice([2, 4, 5, 10])
         xmin = xmax / rng.choice([2, 4, 10])
         vm = [float(rng.choice([1000, 2048, 2500, 3000, 4096, 5000])) for _ in range(C)]
         minT = float(rng.choice([50, 100, 200, 250]))
+        if want == "row-edge":
+            # coarse volumes: the rounding of the source column's rows is of the size of the differences between rows
+            vm = [float(rng.choice([100, 150, 200, 300])) for _ in range(C)]
+            minT = float(rng.choice([10, 15, 20, 25, 30, 40]))
+            stock = float(rng.choice([100, 200, 1000]))
+            xmax = stock / rng.choice([2, 4, 5])
+            xmin = xmax / rng.choice([100, 1000, 10000, 300])
+            C = rng.choice([4, 6, 8, 12])
+            vm = [float(rng.choice([100, 150, 200, 300])) for _ in range(C)]
         N = R * C
         ideal = [xmax + (xmin - xmax) * k / (N - 1) for k in range(N)] if N > 1 else [xmax]
+        if want == "row-edge":
+            # logarithmic spacing: the rows of a column need (nearly) the same volume from a source column, so which row
+            # falls below min_transfer is decided by the rounding of the source's rows
+            ideal = [math.exp(math.log(xmax) + (math.log(xmin) - math.log(xmax)) * k / (N - 1)) for k in range(N)]
         col = lambda c: [ideal[c * R + r] for r in range(R)]
         instr, actual = [], []
         for c in range(C):
@@ -2516,6 +2533,9 @@ def _tight_budget_params(rng, tries=30000):
         for c in range(len(instr), C):
             for s in range(len(instr)):
                 vt = [math.ceil(vm[c] * x / a) for x, a in zip(col(c), actual[s])]
+                # a MIDDLE row at the edge of min_transfer / vmax while the first and last rows are inside: every row counts
+                if want == "row-edge" and R >= 3 and minT <= vt[-1] and vt[0] <= vm[c] and any(v < minT or v > vm[c] for v in vt[1:-1]):
+                    tight = True
                 if all(v >= minT for v in vt) and all(v <= vm[c] for v in vt):
                     margins = [a - v for a, v in zip(avail[s], vt)]
                     # (a column that was drawn from before and still holds more than 2048 uL: where a narrow float type
@@ -2529,7 +2549,8 @@ def _tight_budget_params(rng, tries=30000):
             else:
                 break
         if tight:
-            return dict(R=R, C=C, stock=F(stock), xmax=F(xmax), xmin=F(xmin), mode="linear", vmax=[F(v) for v in vm], minT=F(minT))
+            return dict(R=R, C=C, stock=F(stock), xmax=F(xmax), xmin=F(xmin), mode="log" if want == "row-edge" else "linear",
+                        vmax=[F(v) for v in vm], minT=F(minT))
     return None
 
 
@@ -2546,7 +2567,7 @@ def run_C14(ctx):
         tp = None
         if tight_left > 0 and _ >= ctx.n(560):
             tight_left -= 1
-            tp = _tight_budget_params(rng)
+            tp = _tight_budget_params(rng, want="row-edge" if tight_left % 4 == 0 else "budget")
             if tp is None:
                 continue
             u = 0.0
